@@ -291,6 +291,16 @@ pub fn run(ctx: &mut Ctx) {
             }
         }
     }
+    // straddle strings taken character by character
+    for (st, ci) in al::straddle_strings() {
+        if !ctx.mine() {
+            continue;
+        }
+        let ch: String = st.chars().nth(ci).unwrap().to_string();
+        for p in [json!({"===": [{"var": ""}, ch]}), json!({"!==": [{"var": ""}, ch]}), json!({"in": [{"var": ""}, "axyz"]}), json!({"log": {"var": ""}})] {
+            triple(ctx, "string:straddle", &json!({"var": "s"}), &p, &json!({"s": st}), Some(true));
+        }
+    }
     crate::spaces::render_probes(ctx, &["all", "some", "none"]);
     crate::spaces::width_probes(ctx);
     crate::spaces::nested_iteration_probes(ctx);
